@@ -394,6 +394,16 @@ func c05Case(c *core.Ctx, i int64, r *rand.Rand) {
 	if i < 32 {
 		t = chainType(1 + int(i)%16)
 		c.Count("nesting_chains_to_depth_16", 1)
+	} else if k := int(i) - 32; k < 2*len(lang.HashCollisions) {
+		// two fields whose names collide under a common 32-bit string hash
+		hc := lang.HashCollisions[k/2]
+		fa := reflect.StructField{Name: strings.ToUpper(hc.A[:1]) + hc.A[1:], Type: reflect.TypeOf(0)}
+		fb := reflect.StructField{Name: strings.ToUpper(hc.B[:1]) + hc.B[1:], Type: reflect.TypeOf("")}
+		if k%2 == 1 {
+			fa, fb = fb, fa
+		}
+		t = reflect.StructOf([]reflect.StructField{fa, {Name: "Name", Type: reflect.TypeOf("")}, fb})
+		c.Count("struct_types_with_hash_colliding_field_names", 1)
 	} else if r.Intn(4) == 0 {
 		t = zoo[r.Intn(len(zoo))]
 	} else {
@@ -520,7 +530,7 @@ func init() {
 		Level: "exploration",
 		Rule: "round-trip monitor: the harness owns the writer (Go value -> BCL text) and the matching rule (tag first, else equal ignoring case and underscores; type name matched the same way). Struct types are built with reflect.StructOf (1-12 fields of int/float64/string/bool, nested anonymous structs to depth 4, tags on a random subset, a Name field at any index or absent) or taken from a zoo of named types (named nested type included); " +
 			"values: zero, extremes (MinInt64, +-MaxFloat64, denormals, -0.0), random finite floats, strings needing every escape form; key spellings: snake, joined, upper, Go name, extra/leading/trailing underscores, lower camel; field order shuffled; struct binding with every selector and slice binding (all/first/last) into a slice pre-filled with junk. Required: nil error and bit-exact deep equality. " +
-			"distinct = hash(text, type); non-trivial = at least one field crossed the reflection layer Also: struct chains nested 1..16 deep; tags equal to a sibling field's Go name (the tag wins); the source buffer is overwritten right after Unmarshal returns.",
+			"distinct = hash(text, type); non-trivial = at least one field crossed the reflection layer Also: struct chains nested 1..16 deep; struct types holding two field names that collide under a common 32-bit string hash (FNV, CRC32, Adler, djb2, sdbm, 31/131 multiplicative, Jenkins, Murmur3, byte sum/xor: internal/lang/collide_table.go); tags equal to a sibling field's Go name (the tag wins); the source buffer is overwritten right after Unmarshal returns.",
 		Assumptions:   []string{"field-name sets that are ambiguous under the rule (two fields equal after folding, a tag equal to another field's folded name) are not generated"},
 		MinNontrivial: 1000,
 		Run: func(c *core.Ctx) {
